@@ -92,9 +92,10 @@ def build(u):
     u.include('prelude/typst_callees.rs')
     u.include('prelude/typst_assign_stub.rs')
     u.include('prelude/typst_helpers.rs')
+    u.include('prelude/slice_position.rs')
     u.emit(C, 'impl ReferenceStep', only=['get_member'])
     u.emit(T, 'fn build_type_of_ref1', rules=[tyr.ty2_rev_loop])
     u.emit(T, 'fn build_type_of_reference')
     u.emit(T, 'impl Reference', only=['analyze_assignment'],
-           rules=[rules.r1_r2_map_collect(min_count=0), tyr.ty1_last_member, rules.r3_option_map(['member']), r_assert_message])
+           rules=[rules.r1_r2_map_collect(min_count=0), tyr.ty1_last_member, tyr.ty3_rposition, rules.r3_option_map(['member']), r_assert_message])
     u.emit(T, 'impl Analyzable for Statement', pre=specs('stmt_pre(self, t)', 'stmt_post(self, r, t0, t1)'))
